@@ -225,13 +225,144 @@ pub fn strategy(ctx: &Ctx) -> BoxedStrategy<Case> {
         .boxed()
 }
 
+
+// ---------------------------------------------------------------------------
+// part interleaved: a clip pushed before the layer is popped while the layer is still open
+
+#[derive(Clone, Debug, Serialize, Deserialize)]
+pub struct InterleavedCase {
+    pub w: i32,
+    pub h: i32,
+    pub init: Vec<u32>,
+    /// the clip rectangle the layer is pushed under (inside the surface, not at the origin)
+    pub rect: (i32, i32, i32, i32),
+    pub opacity: Fl,
+    pub blend: u8,
+    pub xf: Xf,
+    pub first: Op,
+    pub second: Op,
+    /// the second draw happens inside a further layer pushed after the clip was popped
+    pub nested: Option<(Fl, u8)>,
+}
+
+/// The statement leaves open what a draw *outside* the rectangle means once the clip the layer was pushed under
+/// has been popped (the isolated surface has no extent in the statement; the library's layer covers the clip
+/// bounds at push time). Inside the rectangle there is no such freedom: the draw made after the pop is the same
+/// there whether or not the rectangle still clips it (C05: inside a rectangular clip the result equals the
+/// unclipped drawing exactly), so popping the clip before or after that draw must give bit-identical pixels
+/// inside the rectangle.
+pub fn check_interleaved(c: &InterleavedCase) -> CheckResult {
+    let mut o = Outcome::new();
+    o.fp = fp_of(c);
+    let (x0, y0, x1, y1) = c.rect;
+    let run = |pop_first: bool| -> Vec<u32> {
+        let mut dt = new_target(c.w, c.h, &c.init);
+        dt.push_clip_rect(irect(x0, y0, x1, y1));
+        dt.push_layer_with_blend(c.opacity.0, BLEND_MODES[c.blend as usize]);
+        dt.set_transform(&to_transform(&c.xf));
+        apply(&mut dt, &c.first);
+        if pop_first {
+            dt.pop_clip();
+        }
+        if let Some((op, bl)) = &c.nested {
+            dt.push_layer_with_blend(op.0, BLEND_MODES[*bl as usize]);
+        }
+        apply(&mut dt, &c.second);
+        if c.nested.is_some() {
+            dt.pop_layer();
+        }
+        if !pop_first {
+            dt.pop_clip();
+        }
+        dt.pop_layer();
+        dt.get_data().to_vec()
+    };
+    let a = run(true);
+    let b = run(false);
+    let mut differs_from_init = false;
+    for y in y0.max(0)..y1.min(c.h) {
+        for x in x0.max(0)..x1.min(c.w) {
+            let i = (y * c.w + x) as usize;
+            o.judged += 1;
+            differs_from_init |= a[i] != c.init[i];
+            if a[i] != b[i] {
+                return Err(format!(
+                    "clip rect ({},{})-({},{}) pushed, layer pushed, {}, then {}{}: pixel ({},{}) inside the rectangle is {} when the clip is popped before the second draw and {} when it is popped after it (the draw is the same inside the rectangle either way)",
+                    x0,
+                    y0,
+                    x1,
+                    y1,
+                    c.first.kind(),
+                    c.second.kind(),
+                    if c.nested.is_some() { " inside a nested layer" } else { "" },
+                    x,
+                    y,
+                    hex(a[i]),
+                    hex(b[i])
+                ));
+            }
+        }
+    }
+    // did the second draw reach beyond the rectangle? (probe: the same draw alone on a blank surface)
+    let mut probe = DrawTarget::new(c.w, c.h);
+    probe.set_transform(&to_transform(&c.xf));
+    if let Some(wop) = whitened_for_probe(&c.second) {
+        apply(&mut probe, &wop);
+    }
+    let beyond = (0..c.w * c.h).any(|i| {
+        let (x, y) = (i % c.w, i / c.w);
+        probe.get_data()[i as usize] != 0 && !(x >= x0 && x < x1 && y >= y0 && y < y1)
+    });
+    o.nontrivial = differs_from_init && beyond;
+    o.class_if(beyond, "second-draw-reaches-beyond-the-layer");
+    o.class_if(c.nested.is_some(), "second-draw-in-nested-layer");
+    o.class(c.second.kind());
+    Ok(o)
+}
+
+/// the geometry of a drawing op with an opaque source, SrcOver (to see where it lands)
+fn whitened_for_probe(op: &Op) -> Option<Op> {
+    let white = SrcSpec::Solid(0xffff_ffff);
+    let o = |o: &Opts| Opts { blend: SRC_OVER, alpha: Fl(1.0), aa: o.aa };
+    Some(match op {
+        Op::Fill(p, _, op) => Op::Fill(p.clone(), white, o(op)),
+        Op::FillRect(x, y, w, h, _, op) => Op::FillRect(*x, *y, *w, *h, white, o(op)),
+        Op::Stroke(p, _, st, op) => Op::Stroke(p.clone(), white, st.clone(), o(op)),
+        Op::Clear(_) => Op::Clear(0xffff_ffff),
+        other => other.clone(),
+    })
+}
+
+fn interleaved_strategy(ctx: &Ctx) -> BoxedStrategy<InterleavedCase> {
+    let ctx = ctx.clone();
+    (6i32..=20, 6i32..=20)
+        .prop_flat_map(move |(w, h)| {
+            let d = Domain::free(w, h);
+            let rect = (1..w - 2, 1..h - 2).prop_flat_map(move |(x0, y0)| (Just(x0), Just(y0), x0 + 1..w, y0 + 1..h));
+            (
+                Just((w, h)),
+                init_pixels(w, h),
+                rect,
+                alpha_f(),
+                blend_biased(),
+                xf_for(&d),
+                draw_op(&ctx, &d),
+                draw_op(&ctx, &d),
+                prop::option::weighted(0.3, (alpha_f(), blend_biased())),
+            )
+        })
+        .prop_map(|((w, h), init, rect, op, bl, xf, first, second, nested)| InterleavedCase { w, h, init, rect, opacity: Fl(op), blend: bl, xf, first, second, nested: nested.map(|(a, b)| (Fl(a), b)) })
+        .boxed()
+}
+
 pub fn property(ctx: &Ctx) -> Property {
     let c = ctx.clone();
+    let c2 = ctx.clone();
     Property {
         id: "C06",
-        rule: "cases: properly nested histories with at least one push_layer_with_blend group (opacity in {0,1,0.5,1/255-neighbours,uniform}, 28 blend modes) at top level or under a clip (rect at an offset / partly off-surface / inverted, quarter-grid path), containing fills, fill_rects, masks, clear, image draws, quarter-pixel transform changes (one group in ten ends by setting a non-invertible transform, so that it is popped under it), balanced clip pushes and nested layers (depth <= 3), on non-transparent initial contents. Oracle: the group's inner ops are replayed without the layer on a separate transparent surface with the same transform and clip stack (nested layers judged recursively there); after pop every pixel must equal the compositor formula with source = isolated group pixel, coverage = round(255 opacity), clip coverage = product of pushed path coverages, blend = layer blend (exact at opacity 1 without partial clip, +-3/255 otherwise); outside the clip rectangle unchanged; the base surface must not change while the layer is open; push/pop leave the transform alone. Non-trivial: opacity != 1, blend != SrcOver, nesting >= 2, layer origin != (0,0) or clear inside; distinct by hash of the case.",
-        assumptions: vec!["the inner draws themselves (on a plain surface) are judged by C02/C03/C05", "improperly interleaved stacks (popping inside a layer a clip pushed outside it) are outside the statement and not generated"],
-        parts: vec![part("group", 100_000, 1_500_000, move || strategy(&c), check)],
+        rule: "cases: properly nested histories with at least one push_layer_with_blend group (opacity in {0,1,0.5,1/255-neighbours,uniform}, 28 blend modes) at top level or under a clip (rect at an offset / partly off-surface / inverted, quarter-grid path), containing fills, fill_rects, masks, clear, image draws, quarter-pixel transform changes (one group in ten ends by setting a non-invertible transform, so that it is popped under it), balanced clip pushes and nested layers (depth <= 3), on non-transparent initial contents. Oracle: the group's inner ops are replayed without the layer on a separate transparent surface with the same transform and clip stack (nested layers judged recursively there); after pop every pixel must equal the compositor formula with source = isolated group pixel, coverage = round(255 opacity), clip coverage = product of pushed path coverages, blend = layer blend (exact at opacity 1 without partial clip, +-3/255 otherwise); outside the clip rectangle unchanged; the base surface must not change while the layer is open; push/pop leave the transform alone. part interleaved: clip rect at an offset, layer, a draw, then a second draw (any kind, any transform, in a third of the cases inside a further layer) made either after or before the clip is popped; pixels inside the rectangle must be bit-identical between the two orders. Non-trivial: opacity != 1, blend != SrcOver, nesting >= 2, layer origin != (0,0) or clear inside; distinct by hash of the case.",
+        assumptions: vec!["the inner draws themselves (on a plain surface) are judged by C02/C03/C05", "improperly interleaved stacks (popping inside a layer a clip pushed outside it): the statement does not say what a draw outside the layer's original clip means, so part interleaved only demands what holds under every reading (inside the rectangle, popping the clip before or after the draw is the same)"],
+        parts: vec![part("group", 100_000, 1_500_000, move || strategy(&c), check), part("interleaved", 30_000, 600_000, move || interleaved_strategy(&c2), check_interleaved)],
         min_class_fraction: vec![
             ("group", "opacity-partial", 0.2),
             ("group", "layer-blend-non-srcover", 0.3),
@@ -240,6 +371,7 @@ pub fn property(ctx: &Ctx) -> Property {
             ("group", "clear-inside-layer", 0.03),
             ("group", "layer-under-clip-path", 0.1),
             ("group", "popped-under-singular-transform", 0.015),
+            ("interleaved", "second-draw-reaches-beyond-the-layer", 0.3),
         ],
         panic_is_violation: false,
     }
